@@ -65,6 +65,13 @@ CHECKS = {
   text="Every history of length <= L over a 13-operation alphabet (appends of +1/+2, expunges, flag updates with and without source, mailbox flags, polls with and without expunge permission on 2 sessions) on a 3-message mailbox, plus seeded random histories with 1..4 sessions created/closed at arbitrary points. Decides: emitted updates are exactly the expected per-session event prefix, in order, correctly numbered, no EXPUNGE when disallowed, Poll(true) makes the view equal the mailbox, and both translations agree with the mirror for every number.",
   design_ref="DESIGN.md §3 C07",
   note="Sequential histories (one poll at a time); DecodeSeqNum probed on 1..|V|, EncodeSeqNum on 1..|M|."),
+
+ "C17": dict(
+  category="exploration",
+  technique="runtime trace monitor with marker injection: raw client / scripted peer over the instrumented in-process connection deliver injected plaintext after the STARTTLS line under every two-write split, one write and byte-at-a-time, then run a real crypto/tls handshake; recording stub backend and unilateral-data callbacks as observers; race detector on",
+  text="Server: 12 injected command suffixes x all splits x InsecureAuth on/off: no backend call or response (plaintext or inside TLS) may carry a marker, bytes after the tagged OK must be TLS records, credentials policy on plaintext. Client: 12 injected response suffixes x all splits x OK/PREAUTH/BYE greetings: no callback, capability, state change or command completion from injected bytes; PREAUTH and BYE refused. Positive controls without injection must complete the handshake and carry LOGIN/NOOP over TLS.",
+  design_ref="DESIGN.md §3 C17",
+  note="Dropping the early plaintext is accepted as well as feeding it to the handshake. Trusts crypto/tls."),
 }
 
 NOT_YET = "check not built yet in this round (planned in DESIGN.md §3; runtime monitoring applies)"
